@@ -78,8 +78,12 @@ SpecFor(o, s) == IF s \in DOMAIN o THEN [i \in DOMAIN o[s] |-> Canon(o[s][i])] E
 \* victim still receives about the others depends on the scheduler, so for them
 \* only the session-control messages (GOODBYE, CLOSED) of that step are compared.
 Leavers == {s \in DOMAIN sess : sess[s].st = "joined" /\ sess'[s].st = "gone"}
+\* A session attached over a network transport cannot be told anything once it has hung up,
+\* and what is still queued for it when the router closes the connection is discarded by the
+\* transport: in the step in which such a session ends only its session-control messages are compared.
+Wire(s) == "tr" \in DOMAIN sess[s].attrs /\ sess[s].attrs.tr # ""
 ProjFor(s, q) ==
-  IF Cardinality(Leavers) > 1 /\ s \in Leavers
+  IF s \in Leavers /\ (Cardinality(Leavers) > 1 \/ Wire(s))
   THEN SelectSeq(q, LAMBDA m : Class(m) = "sess" /\ "sess" \in Classes)
   ELSE Proj(q)
 
